@@ -3,7 +3,7 @@ import StoneVerif.Lemmas.FeCompileLegalReg
 import StoneVerif.Lemmas.FeCompileClosed
 set_option linter.unusedSimpArgs false
 /-!
-Pass 2 of the compile model (imports) succeeds exactly on the inputs whose imports obey `importsLegal`: the checks
+Pass 2 of the compileCore model (imports) succeeds exactly on the inputs whose imports obey `importsLegal`: the checks
 against the imports bound so far are, taken together, the order-free statement about all imports.
 -/
 namespace StoneVerif.FeCompile.L
@@ -37,7 +37,7 @@ theorem addImportsDecls_fold {nss ns} : ∀ {ds : List Decl} {I},
       cases addImport nss I ns t with
       | error e => rfl
       | ok I' => exact addImportsDecls_fold
-    | type _ | «alias» _ _ | route _ | annot _ | annotType _ =>
+    | type _ | «alias» _ _ | route _ | annot _ | annotType _ | patch _ =>
       simp only [addImportsDecls, List.map_cons, List.filterMap_cons, importOf]
       exact addImportsDecls_fold
 
